@@ -795,10 +795,6 @@ _POS5 = _FRAMES5.map(lambda t: t[:3])
 _POS10 = _FRAMES10.map(lambda t: t[:3])
 
 
-def frames():
-    return _FRAMES10
-
-
 _SMALL = [0.0, 1e-9, 5e-9, 9.9e-9]
 _OVER = [1.01e-8, 2e-8, 1e-7, 1e-6]
 _S_SMALL = st.sampled_from(_SMALL)
@@ -862,11 +858,6 @@ def _draw_pair(draw):
 
 
 @st.composite
-def frame_pairs(draw):
-    return _draw_pair(draw)
-
-
-@st.composite
 def frame_triples(draw):
     if draw(_BOOL):         # half of the cases: three unrelated, unexceptional frames
         A = draw(_PLAIN10)
@@ -877,11 +868,6 @@ def frame_triples(draw):
     k = draw(_I04)
     C = _draw_near(draw, A) if k == 0 else (_draw_near(draw, B) if k == 1 else draw(_FRAMES10))
     return {"A": A, "B": B, "C": C}
-
-
-@st.composite
-def near_or_any(draw, A):
-    return _draw_near(draw, A) if draw(_I02) == 0 else draw(_FRAMES10)
 
 
 _E6 = [np.eye(6)[i] for i in range(6)]
@@ -981,20 +967,20 @@ def _keep_case(draw):
 
 
 CLAUSES = [
-    Clause("frame_change_matches_oracle", c_frame_oracle, S_FRAME_ORACLE, 1200, 10000),
-    Clause("frame_roundtrip_identity", c_frame_roundtrip, S_ROUNDTRIP, 1000, 10000),
-    Clause("frame_composition", c_frame_composition, S_COMPOSITION, 1000, 10000),
-    Clause("frame_recorded_is_target", c_frame_recorded, S_RECORDED, 1000, 10000),
-    Clause("explicit_old_frame", c_explicit_old, S_EXPLICIT, 800, 8000),
-    Clause("pairing_invariant", c_pairing, S_PAIRING, 1000, 10000),
-    Clause("force_at_point", c_force_at_point, _force_case(), 1000, 10000),
+    Clause("frame_change_matches_oracle", c_frame_oracle, S_FRAME_ORACLE, 1200, 8000),
+    Clause("frame_roundtrip_identity", c_frame_roundtrip, S_ROUNDTRIP, 1000, 8000),
+    Clause("frame_composition", c_frame_composition, S_COMPOSITION, 1000, 8000),
+    Clause("frame_recorded_is_target", c_frame_recorded, S_RECORDED, 1000, 8000),
+    Clause("explicit_old_frame", c_explicit_old, S_EXPLICIT, 800, 6000),
+    Clause("pairing_invariant", c_pairing, S_PAIRING, 1000, 8000),
+    Clause("force_at_point", c_force_at_point, _force_case(), 1000, 8000),
     Clause("cross_frame_sum", c_cross_frame_sum,
-           _arith_case(("obj_B",), {"op": st.sampled_from(["+", "-", "+=", "-="])}), 1000, 10000),
+           _arith_case(("obj_B",), {"op": st.sampled_from(["+", "-", "+=", "-="])}), 1000, 8000),
     Clause("add_sub_cancel", c_add_sub_cancel,
-           _arith_case(ALL_FORMS, {"order": st.sampled_from(["a+b", "b+a"])}), 1200, 10000),
-    Clause("sub_is_add_neg", c_sub_is_add_neg, _arith_case(ALL_FORMS), 1200, 10000),
-    Clause("rsub_is_neg_sub", c_rsub_is_neg_sub, _arith_case(ALL_FORMS), 1200, 10000),
+           _arith_case(ALL_FORMS, {"order": st.sampled_from(["a+b", "b+a"])}), 1200, 8000),
+    Clause("sub_is_add_neg", c_sub_is_add_neg, _arith_case(ALL_FORMS), 1200, 8000),
+    Clause("rsub_is_neg_sub", c_rsub_is_neg_sub, _arith_case(ALL_FORMS), 1200, 8000),
     Clause("scale_unscale", c_scale_unscale,
-           _arith_case(SCALAR_FORMS, {"order": st.sampled_from(["k*a", "a*k"]), "sf": K_F, "si": K_I}), 1000, 10000),
-    Clause("arith_result_keeps_kind", c_result_keeps_kind, _keep_case(), 1200, 10000),
+           _arith_case(SCALAR_FORMS, {"order": st.sampled_from(["k*a", "a*k"]), "sf": K_F, "si": K_I}), 1000, 8000),
+    Clause("arith_result_keeps_kind", c_result_keeps_kind, _keep_case(), 1200, 8000),
 ]
